@@ -138,9 +138,11 @@ impl Fam for WG {
     type P<'g, X: 'g> = PoisonResult<PoisonRef<'g, X>>;
     type S<'g, X: 'g> = happylock::lockable::GuardSlice<X>;
     fn m_pay<'x, 'g: 'x>(m: &'x mut Self::M<'g>) -> PayRef<'x> {
+        crate::maybe_lend!(m, MutexRef<'g, Pay, SimRawMutex>, 1u8);
         PayRef::Mut(&mut **m)
     }
     fn r_pay<'x, 'g: 'x>(r: &'x mut Self::R<'g>) -> PayRef<'x> {
+        crate::maybe_lend!(r, RwLockWriteRef<'g, Pay, SimRawRwLock>, 2u8);
         PayRef::Mut(&mut **r)
     }
     fn p_open<'x, 'g: 'x, X: 'g>(p: &'x mut Self::P<'g, X>) -> (bool, &'x mut X) {
@@ -160,6 +162,7 @@ impl Fam for RG {
         match *m {}
     }
     fn r_pay<'x, 'g: 'x>(r: &'x mut Self::R<'g>) -> PayRef<'x> {
+        crate::maybe_lend!(r, RwLockReadRef<'g, Pay, SimRawRwLock>, 3u8);
         crate::shared_leaf_access!(r, RwLockReadRef<'g, Pay, SimRawRwLock>)
     }
     fn p_open<'x, 'g: 'x, X: 'g>(p: &'x mut Self::P<'g, X>) -> (bool, &'x mut X) {
@@ -1414,4 +1417,17 @@ pub fn expose_owned(u: &'static RUnit) -> Option<(Vec<&'static Leaf>, &'static s
         return Some((ms.into_iter().map(|m| &**m).collect(), "into_iter"));
     }
     None
+}
+
+/// exchange two member guards of the same type (what `mem::swap` does with two `&mut guard`)
+///
+/// # Safety
+/// both addresses point to live guards of the type named by `tag`, not otherwise borrowed
+pub unsafe fn swap_member_guards(a: usize, b: usize, tag: u8) {
+    match tag {
+        1 => std::ptr::swap(a as *mut MutexRef<'static, Pay, SimRawMutex>, b as *mut MutexRef<'static, Pay, SimRawMutex>),
+        2 => std::ptr::swap(a as *mut RwLockWriteRef<'static, Pay, SimRawRwLock>, b as *mut RwLockWriteRef<'static, Pay, SimRawRwLock>),
+        3 => std::ptr::swap(a as *mut RwLockReadRef<'static, Pay, SimRawRwLock>, b as *mut RwLockReadRef<'static, Pay, SimRawRwLock>),
+        _ => panic!("happysim: unknown member guard tag"),
+    }
 }
